@@ -784,3 +784,12 @@ def run(fx, rep, tier):
         rep.obls.append(o)
     for f in sub.floors:
         rep.floors.append(("C05-R6",) + tuple(f[1:]))
+    rep.rule("C05-R7", "a prefixed unit means the prefix's power of ten times the unit, also for offset scales: on both sides of a "
+                       "conversion the SI prefix is applied to the unprefixed quantity (order of prefix scaling and unit conversion, "
+                       "shared with C09-R4)")
+    from . import c09
+    sub = type(rep)(rep.prop, rep.tier)
+    c09.r4_order(facts, sub)
+    for o in sub.obls:
+        o["rule"] = "C05-R7"
+        rep.obls.append(o)
